@@ -31,6 +31,10 @@
 static QSlog_func global_log_func = NULL;
 static void *global_log_data = NULL;
 
+#ifdef QSOPT_EX_VERIF
+void (*QSverif_hook)(const char *what, long a, long b) = NULL;
+#endif
+
 
 void QSlog_set_handler(QSlog_func log_func, void *data)
 {
